@@ -60,9 +60,10 @@ type C07Plan struct {
 	Faults     []C07Fault      `json:"faults,omitempty"`
 	Cons       []C07Cons       `json:"cons"`
 	Batch      int             `json:"batch"`
-	Sr         bool            `json:"sr,omitempty"` // interleave RTCP sender reports
-	Custom     *C07Custom      `json:"custom,omitempty"` // Transport == "custom": the customize-pub API
-	Ps         *C07Ps          `json:"ps,omitempty"`     // Transport == "gb_udp" | "gb_tcp": GB28181 PS over RTP
+	Sr         bool            `json:"sr,omitempty"`       // interleave RTCP sender reports
+	AacFrag    int             `json:"aac_frag,omitempty"` // RTSP: AAC access units larger than this many payload bytes are fragmented
+	Custom     *C07Custom      `json:"custom,omitempty"`   // Transport == "custom": the customize-pub API
+	Ps         *C07Ps          `json:"ps,omitempty"`       // Transport == "gb_udp" | "gb_tcp": GB28181 PS over RTP
 }
 
 // C07Custom: how the customize-pub caller hands frames over.
@@ -168,6 +169,19 @@ func genC07Plan(r *sim.Rng, tier string) C07Plan {
 	if r.Bool(0.15) {
 		nf *= 4 // long runs for the drift clause
 	}
+	longFrag := false
+	if p.kind() == "rtsp" && p.Audio == "aac" {
+		if r.Bool(0.3) {
+			p.AacFrag = []int{24, 60, 200, 500}[r.Intn(4)]
+		}
+		if r.Bool(0.06) {
+			// more fragmented access units than the reorder list has slots, then a perturbed arrival
+			longFrag = true
+			p.Video = ""
+			p.AacFrag = 24
+			nf = 1030 + r.Intn(300)
+		}
+	}
 	p.Batch = 1 + r.Intn(12)
 	// frames: video at a (mostly) constant rate with occasional jitter, audio at the codec's frame duration
 	vclock, aclock := 90000, p.clock(1)
@@ -271,6 +285,10 @@ func genC07Plan(r *sim.Rng, tier string) C07Plan {
 			}
 		}
 	}
+	if longFrag {
+		p.Sched.MaxSteps = 600000
+		p.Faults = append(p.Faults, C07Fault{Kind: "delay", Track: 1, At: 2*nf - 2 - r.Intn(20), Dist: 1 + r.Intn(3)})
+	}
 	// faults: duplication and delay inside the jitter window
 	if r.Bool(0.6) {
 		nfl := 1 + r.Intn(6)
@@ -339,6 +357,9 @@ func buildC07(p *C07Plan) *c07Src {
 	pk := [2]*rtpc.Packer{
 		{Codec: map[string]rtpc.Codec{"avc": rtpc.H264, "hevc": rtpc.H265, "": rtpc.H264}[p.Video], PT: 96, Ssrc: 0x11110000, Seq: p.SeqStart[0], Max: p.MaxPayload, UseStap: p.UseStap},
 		{Codec: rtpc.Raw, PT: 97, Ssrc: 0x22220000, Seq: p.SeqStart[1], Max: 65000},
+	}
+	if p.AacFrag > 0 {
+		pk[1].Max, pk[1].FragAudio = p.AacFrag, true
 	}
 	if p.Video == "hevc" {
 		pk[0].PT = 98
